@@ -50,6 +50,33 @@ func verifSleep(d time.Duration) {
 	r.setPark("")
 }
 
+// Fallback hooks, woven in only when the current trace_observer.go has no time.Sleep( call any more (a back-off
+// rewritten as a wait on a timer): a timer of a second or more started by the worker goroutine is the back-off, it
+// fires when the scenario wakes the worker.  Timers of other goroutines and short ones are the real thing.
+func verifNewTimer(d time.Duration) *time.Timer {
+	c16SleepMu.Lock()
+	r := c16SleepRuns[c16Gid()]
+	c16SleepMu.Unlock()
+	if r == nil || d < time.Second {
+		return time.NewTimer(d)
+	}
+	t := time.NewTimer(24 * time.Hour)
+	c := make(chan time.Time, 1)
+	t.C = c
+	r.setPark("sleep")
+	go func() {
+		select {
+		case <-r.sleepGate:
+		case <-r.abandon:
+		}
+		r.setPark("")
+		c <- time.Now()
+	}()
+	return t
+}
+
+func verifAfter(d time.Duration) <-chan time.Time { return verifNewTimer(d).C }
+
 func c16Gid() int {
 	buf := make([]byte, 64)
 	n := runtime.Stack(buf, false)
